@@ -647,7 +647,10 @@ func (g *Gen) drawKind(t *rapid.T, k string) (Op, bool) {
 			return Op{}, false
 		}
 		return Op{K: k, Slot: used[rapid.IntRange(0, len(used)-1).Draw(t, "slot")]}, true
-	case OpReset, OpGC, OpDumpLoad, OpTypeLimit, OpDumpSave, OpDumpRestore:
+	case OpDumpLoad, OpDumpRestore:
+		// how the dump travels: as a value, through encoding/json, through indented JSON
+		return Op{K: k, V: rapid.SampledFrom([]int{0, 0, 1, 2}).Draw(t, "transport")}, true
+	case OpReset, OpGC, OpTypeLimit, OpDumpSave:
 		return Op{K: k}, true
 	case OpLockedRegistration:
 		g.serial++
